@@ -39,7 +39,7 @@ PaddingIndependent == (Ok => \A i \in 1..NS : HasCapture(St, i) => R.resp[i][p] 
 \* (C02: in 4-valued mode the state transfer is the same copy of the captured value; the 8-valued transfer is not claimed)
 CycleIsNextState == (Ok /\ R.m \in {2, 4} =>
                        \A c \in 1..Len(R.cyc) : LET a == IterAsg(St, R.m, Asg, R.cyc[c].k) IN
-                           \A i \in (NPorts(St) + 1)..NS : R.cyc[c].s0[i][p] = a[i]) \/ Fail(Pid, "CycleIsNextState")
+                           \A i \in 1..NS : R.cyc[c].s0[i][p] = a[i]) \/ Fail(Pid, "CycleIsNextState")      \* ports: inputs held
 \* C02: a 0/1 result is never contradicted by a 0/1 completion of the unknown/unassigned inputs (observed lanes)
 Completes(q) == \A i \in 1..NS : R.stim[i][q] \in Compl(R.stim[i][p])
 XSound == (Ok /\ R.m > 2 =>
